@@ -208,13 +208,14 @@ P("C18", "other",
   "every binary operator of Quantity reaches _check before combining; every exception class's __reduce__ matches its __init__; "
   "the copy hooks PlainQuantity.__copy__ / __deepcopy__ and PlainUnit.__copy__ / __deepcopy__ (scalar magnitudes) return a fresh "
   "object of the same class (hence the same registry) with the same magnitude and equal units, a deep copy owning a fresh container, "
-  "and leave the original untouched. "
+  "and leave the original untouched; to_tuple returns the magnitude and a listing of exactly the (name, exponent) items of the units, "
+  "every name once. "
   "Bounded: pickle protocols 0-5 x magnitude types x random units, copy/deepcopy/tuple forms, every exception class, "
   "cross-registry operators, deep-copied registries, lazy registry in a fresh interpreter.",
   "Assumed: copy.copy / copy.deepcopy of a scalar is the value; copy.deepcopy of a UnitsContainer is a fresh equal container (CPython's "
-  "reduce_ex over the verified __getstate__/__setstate__ pair); the Quantity constructor. to_tuple / from_tuple are bounded only "
-  "(tuple(dict.items()) is outside the modelled subset).",
-  MIXED + ": proved = registry-identity guard, reduce/init agreement, the four copy hooks; bounded = round trips.", standins=["standins.c18_serialize"])
+  "reduce_ex over the verified __getstate__/__setstate__ pair); the Quantity constructor. from_tuple is bounded only "
+  "(the registry's UnitsContainer factory applied to a tuple of pairs is not under contract).",
+  MIXED + ": proved = registry-identity guard, reduce/init agreement, the four copy hooks, to_tuple; bounded = round trips.", standins=["standins.c18_serialize"])
 P("C19", "other",
   "Deductive: Measurement.rel = |error / value| and its invariance under unit scaling (lemma); join_unc. Bounded: constructor "
   "forms, conversion of nominal value and standard deviation against exact factors, first-order propagation against own "
